@@ -50,7 +50,11 @@ class ErrorExtraction(object):
             if klass in self.registry:
                 extractor = self.registry[klass]
                 try:
-                    return extractor(exception)
+                    # A copy: the caller adds its own fields to the result, and
+                    # the extractor may return a dictionary it keeps (e.g. an
+                    # attribute of the exception), which must not be modified
+                    # and must not carry one message's fields into the next.
+                    return dict(extractor(exception))
                 except:
                     from ._traceback import write_traceback
 
